@@ -169,7 +169,8 @@ PROPS = {
                   "alive; list and map updates of the LRU are paired in every control region; both caches have the configured "
                   "capacity and every inserting member evicts against it with a size test that is not stale (nothing that can change "
                   "the cache - a container write or a caller-supplied callable - runs between the test and its use)",
-        "not_decided": "that eviction picks the least recently used key (recency order is a run-time history property)",
+        "not_decided": "the recency order as a run-time history property beyond its two structural halves (a hit moves exactly the entry "
+                       "found to the front; the evicted entry is the tail of the list), which are decided",
         "explanation": "Any plan returned for n was built by the factory for n (K1), is immutable (P1) and was built "
                        "deterministically from n (P2, K1), so results cannot depend on which other lengths were requested; K2 keeps "
                        "the map free of dangling list iterators on every path (the failure needs a fifth distinct length to show); "
